@@ -260,10 +260,16 @@ fn main() {
             if shell && spelled.len() > 330 {
                 continue;
             }
-            let (ctx, pos, size) = if shell || rng.pct(25) {
+            let (ctx, pos, size) = if shell || rng.pct(12) {
                 (0usize, 1usize, 1usize)
             } else {
-                let c = order[rng.below(order.len())];
+                let c = if rng.pct(60) {
+                    let els: Vec<usize> =
+                        order.iter().copied().filter(|&i| tree.nodes[i].kind == Kind::Element).collect();
+                    els[rng.below(els.len())]
+                } else {
+                    order[rng.below(order.len())]
+                };
                 if rng.pct(70) {
                     (c, 1, 1)
                 } else {
